@@ -2370,7 +2370,11 @@ class ColFn(ColExpr):
         # WITHIN GROUP for aggregation functions. On polars use col.filter().
         if filters := self.context_kwargs.get("filter"):
             if len(self.args) == 0:
+                # count the rows satisfying the filter: count(case when filter then 1 end)
                 assert self.op == ops.count_star
+                self.op = ops.count
+                self.args = [CaseExpr([(functools.reduce(operator.and_, (cond for cond in filters)), LiteralCol(1))])]
+                del self.context_kwargs["filter"]
             else:
                 self.args[0] = CaseExpr(
                     [
